@@ -594,7 +594,9 @@ class Parser:
                 raise FFIError(
                     "multiple declarations of %s (for interactive usage, "
                     "try cdef(xx, override=True))" % (name,))
-        assert '__dotdotdot__' not in name.split()
+        if '__dotdotdot__' in name.split():
+            raise CDefError("'...' (or the reserved name '__dotdotdot__') "
+                            "cannot be used as the name of a declaration")
         self._declarations[name] = (obj, quals)
         if included:
             self._included_declarations.add(obj)
